@@ -17,6 +17,7 @@ import (
 )
 
 type Engine struct {
+	declCache map[*types.Func]*ast.FuncDecl
 	repo   string
 	verif  string
 	cs     *ContractSet
